@@ -17,9 +17,9 @@ PROPERTIES = {
         'not_decided': ['stage 3/4 of DESIGN.md C01: the entry-point contract `Ok ==> jevent(input) == event_view(output)` and its converse (completeness) are not yet stated; what is proved is every leaf against its grammar-level spec (integers: Ok iff the digit run fits, value equal, never wrapped; hex members: exactly 64/128 hex digits decoded; UTF-8 encode/decode against RFC 3629; json_unescape totality) and the parser skeleton (consumed length, length field, padding)'],
     },
     'C02': {
-        'units': ['utf8', 'escape', 'event', 'event_parse'],
+        'units': ['utf8', 'escape', 'event', 'event_parse', 'hexwrite'],
         'kani': ['leaf'], 'kani_quick': ['leaf'],
-        'sample_functions': ['json_escape', 'Event::from_parts', 'encode_utf8'],
+        'sample_functions': ['json_escape', 'Event::from_parts', 'encode_utf8', 'Id::write_hex'],
         'not_decided': ['Event::as_json / Tags::as_json == event_json(view) and the re-parse lemma are not yet under contract; proved: json_escape == the NIP-01 escape function for every escapable string, from_parts == canonical packing whatever the buffer held, JSON path zeroes the padding bytes'],
     },
     'C08': {
@@ -29,11 +29,11 @@ PROPERTIES = {
         'not_decided': ['Event::verify / OwnedEvent::sign_new: the composition of the canonical string [0,pubkey,created_at,kind,tags,content] (format!, secp256k1 types) is not yet under contract; SHA-256 / BIP-340 are cryptographic assumptions no verifier here discharges'],
     },
     'C20': {
-        'units': [],
+        'units': ['hll_hex'],
         'kani': ['hll', 'hll_slow'],
         'kani_quick': ['hll'],
         'sample_functions': [],
-        'not_decided': ['hex export/import round trip (unit hll_hex, pending)', 'estimate_count: shift fixed in /repo (17a5c7f); float arithmetic is modelled by neither verifier',
+        'not_decided': ['estimate_count: its only panicking integer operation (1 << register) was a genuine defect, fixed in /repo (17a5c7f); what remains is floating-point arithmetic (cannot panic in Rust) which neither verifier models - a Kani harness over 256 symbolic registers did not finish in 15 minutes; "returns 0 for the empty sketch" is therefore not discharged either',
                         'the 40% error envelope for random elements is a statistical statement about floating point: no contract expresses it'],
     },
     'C19': {
